@@ -4,6 +4,9 @@ from vlib.ref import mc6809 as R
 from vlib.forms import compare
 
 TAIL = ["ZZ9 NOP\n"]
+# forms the README grammar does not clearly make valid: a diagnostic is as good as the exact encoding (never anything else).
+# reglist.redundant = a register named twice / D next to A or B (PSHS A,A  PSHS D,A): an assembler may call that an error
+REJECTION_PERMITTED = {"reglist.redundant"}
 
 
 def bad_class(msg):
@@ -49,6 +52,10 @@ def judge_c01(case, ctx):
     o, lines = observe(case)
     form, traits = case["form"], case["traits"]
     ctx.mon("M5.outcome")
+    if o.outcome == "diag" and form in REJECTION_PERMITTED:
+        ctx.outcome("rejected-permitted")
+        ctx.cell("rejected-permitted/" + form)
+        return
     if o.outcome != "ok":
         ctx.outcome("not-accepted")
         sym = "REJECTED-VALID" if o.outcome == "diag" else "NOT-ACCEPTED:%s:%s@%s" % (o.outcome, o.exc, o.where)
